@@ -1,7 +1,9 @@
 package main
 
 import (
+	"bytes"
 	"fmt"
+	"math"
 
 	"go.sia.tech/core/consensus"
 	"go.sia.tech/core/types"
@@ -301,6 +303,115 @@ func (e *env) directedV1() {
 		} else if cse.must == "accept" && err != nil {
 			e.b.Inconclusive("directed scenario " + cse.key + ": control rejected: " + chaingen.NormErr(err))
 		}
+	}
+}
+
+// directedV1b: two more v1 scenarios (seeded wave 6).
+//
+// (a) an input whose unlock conditions list no key and require 2^64-1 signatures (unspendable on its own) next to an
+// ordinary single-key input, the transaction carrying no signature at all: the required counts of all parents sum
+// to 0 modulo 2^64 - every parent needs its own signatures.
+//
+// (b) a Foundation address update appended to a transaction in which the Foundation's input is signed with partial
+// covered fields (its own input and output only) while another party's input is signed over the whole transaction:
+// no Foundation key signed the update.
+func (e *env) directedV1b() {
+	c := e.c
+	cs := c.Tip()
+	h := cs.Index.Height + 1
+	n := c.Net.N
+	if e.directedV1bDone || h+3 >= n.HardforkV2.RequireHeight {
+		return
+	}
+	type owned struct {
+		el   types.SiacoinElement
+		lock *chaingen.Lock
+		key  types.PrivateKey
+	}
+	var singles, foundation []owned
+	for _, id := range c.S.OrderedSC() {
+		el := c.S.SCEs[id]
+		l := c.W.Locks[el.SiacoinOutput.Address]
+		if l == nil || l.UC == nil || l.Kind == "uc-unknown-alg" || !l.SpendableV1(h+1) || el.MaturityHeight > h || el.SiacoinOutput.Value.IsZero() {
+			continue
+		}
+		if len(l.UC.PublicKeys) != 1 || l.UC.SignaturesRequired != 1 || l.UC.Timelock != 0 || l.UC.PublicKeys[0].Algorithm != types.SpecifierEd25519 {
+			continue
+		}
+		var pk types.PublicKey
+		copy(pk[:], l.UC.PublicKeys[0].Key)
+		k, ok := c.W.Priv(pk)
+		if !ok {
+			continue
+		}
+		o := owned{el.Copy(), l, k}
+		if el.SiacoinOutput.Address == cs.FoundationManagementAddress || el.SiacoinOutput.Address == cs.FoundationSubsidyAddress {
+			foundation = append(foundation, o)
+		} else {
+			singles = append(singles, o)
+		}
+	}
+	if len(singles) < 2 {
+		return
+	}
+	e.directedV1bDone = true
+	judge := func(key, what string, txn types.Transaction, must string) {
+		b2, _, err := c.EmptyBlock()
+		if err != nil {
+			return
+		}
+		b2.Transactions = []types.Transaction{txn}
+		verr, _ := c.TryVariant(&b2)
+		if chaingen.IsSealFailure(verr) {
+			return
+		}
+		e.b.Eval(1)
+		e.b.Count("directed_authorization_scenarios", 1)
+		e.b.Distinct("directed", key)
+		if must == "reject" && verr == nil {
+			e.b.Violate("C03/tamper-accepted/v1-witness/"+key, what, map[string]any{"height": c.Tip().Index.Height + 1})
+		} else if must == "accept" && verr != nil {
+			e.b.Inconclusive("directed scenario " + key + ": control rejected: " + chaingen.NormErr(verr))
+		}
+	}
+	// (a)
+	comp := types.UnlockConditions{SignaturesRequired: math.MaxUint64}
+	pay := c.NewV1Spend(cs, singles[0].el.ID, singles[0].el.SiacoinOutput.Value, singles[0].lock, comp.UnlockHash())
+	if blk, bs, err := c.BlockWith([]types.Transaction{pay}, nil); err == nil && c.Offer(blk, bs, nil) == nil {
+		victim := singles[1]
+		txn := types.Transaction{
+			SiacoinInputs:  []types.SiacoinInput{{ParentID: pay.SiacoinOutputID(0), UnlockConditions: comp}, {ParentID: victim.el.ID, UnlockConditions: *victim.lock.UC}},
+			SiacoinOutputs: []types.SiacoinOutput{{Value: singles[0].el.SiacoinOutput.Value.Add(victim.el.SiacoinOutput.Value), Address: types.VoidAddress}},
+		}
+		judge("unsigned-input-next-to-an-input-requiring-2^64-1-signatures", "a single-key output was spent without any signature in a transaction that also spends an output whose unlock conditions require 2^64-1 signatures (the required counts sum to 0 modulo 2^64)", txn, "reject")
+	}
+	// (b)
+	cs = c.Tip()
+	if cs.Index.Height+1 >= n.HardforkFoundation.Height && len(foundation) > 0 && len(singles) > 2 {
+		f, o := foundation[0], singles[2]
+		var buf bytes.Buffer
+		enc := types.NewEncoder(&buf)
+		types.SpecifierFoundation.EncodeTo(enc)
+		types.FoundationAddressUpdate{NewPrimary: o.el.SiacoinOutput.Address, NewFailsafe: o.el.SiacoinOutput.Address}.EncodeTo(enc)
+		enc.Flush()
+		mk := func(withUpdate bool) types.Transaction {
+			txn := types.Transaction{
+				SiacoinInputs:  []types.SiacoinInput{{ParentID: f.el.ID, UnlockConditions: *f.lock.UC}, {ParentID: o.el.ID, UnlockConditions: *o.lock.UC}},
+				SiacoinOutputs: []types.SiacoinOutput{{Value: f.el.SiacoinOutput.Value, Address: types.VoidAddress}, {Value: o.el.SiacoinOutput.Value, Address: o.el.SiacoinOutput.Address}},
+			}
+			if withUpdate {
+				txn.ArbitraryData = [][]byte{buf.Bytes()}
+			}
+			cf := types.CoveredFields{SiacoinInputs: []uint64{0}, SiacoinOutputs: []uint64{0}}
+			s1 := f.key.SignHash(cs.PartialSigHash(txn, cf))
+			txn.Signatures = append(txn.Signatures, types.TransactionSignature{ParentID: types.Hash256(f.el.ID), CoveredFields: cf, Signature: s1[:]})
+			txn.Signatures = append(txn.Signatures, types.TransactionSignature{ParentID: types.Hash256(o.el.ID), CoveredFields: types.CoveredFields{WholeTransaction: true}})
+			s2 := o.key.SignHash(cs.WholeSigHash(txn, types.Hash256(o.el.ID), 0, 0, nil))
+			txn.Signatures[1].Signature = s2[:]
+			return txn
+		}
+		judge("jointly-funded-transaction-foundation-input-partially-signed(control)", "", mk(false), "accept")
+		judge("foundation-update-appended-beside-a-partially-signed-foundation-input", "a Foundation address update was accepted although the only Foundation-controlled input is signed with covered fields that do not include it; the whole-transaction signature belongs to another party's input", mk(true), "reject")
 	}
 }
 
